@@ -40,6 +40,7 @@ class C06(PropBase):
     def __init__(self, tier="quick"):
         super().__init__(tier)
         self.c02 = C02(tier)
+        self.c02.LIGHT_STREAMS = True  # no multi-MiB streams and no 32766-operation histories here (C02 has them)
 
     def init_op(self, rng):
         try:
@@ -153,10 +154,18 @@ class C06(PropBase):
         n = max(0, min(n, avail))
         if rng.random() < 0.05:
             return {"op": "interlope", "id": rng.choice([1, 9, 4000])}
+        if rng.random() < 0.02:
+            # an application bug between two reads: receive() is called with something that is not bytes-like
+            return {"op": "misuse", "kind": rng.choice(["str", "none", "float", "object"])}
         bk, scr = policy.buf_kind(rng)
         return {"op": "deliver", "n": n, "buf": bk, "scribble": scr}
 
     def step(self, st, op):
+        if op["op"] == "misuse":
+            if not st.x["discard"] and not st.x["error"]:
+                st.w.misuse_receive("S", op.get("kind"))
+                st.hit("misuse_between_chunks")
+            return
         if op["op"] == "interlope" and not st.x["discard"] and not st.x["error"]:
             # an unrelated session of the same process is handed one complete unit while the subject may hold a partial one:
             # it must account for it like any other session
